@@ -402,8 +402,26 @@ func (c *Ctx) rulesR6recmono() {
 		for _, b := range f.Blocks {
 			for _, ins := range b.Instrs {
 				call, ok := ins.(*ssa.Call)
-				if !ok || calleeName(&call.Call) != "encode" {
+				if !ok {
 					continue
+				}
+				if calleeName(&call.Call) != "encode" {
+					// a private wrapper of the package that encodes and stores what it is given
+					cal := call.Call.StaticCallee()
+					if cal == nil || len(cal.Blocks) == 0 || cal.Pkg != tf.Pkg || cal.Object() == nil || cal.Object().Exported() {
+						continue
+					}
+					wraps := false
+					for _, cb := range cal.Blocks {
+						for _, cin := range cb.Instrs {
+							if c2, ok := cin.(*ssa.Call); ok && calleeName(&c2.Call) == "encode" {
+								wraps = true
+							}
+						}
+					}
+					if !wraps {
+						continue
+					}
 				}
 				isRec := false
 				for _, a := range call.Call.Args {
